@@ -52,6 +52,11 @@ def units(tier):
     for m in sorted(isa.ISA):
         for lazy in (False, True):
             us.append(("insn[%s,%s]" % (m, lazy), "unit_compile_insn", dict(mnemonic=m, lazy=lazy)))
+    # "every branch displacement": the 8-bit signed and the 6-bit SOB displacement field over all integers (units shared with C04)
+    for bits, uns in [(8, False), (6, True)]:
+        for sh in insn.BRANCH_SHAPES:
+            for lazy in (False, True):
+                us.append(("offset[%d,%s,%s,%s]" % (bits, uns, sh, lazy), "unit_offset_encode", dict(bits=bits, unsigned=uns, shape=sh, lazy=lazy)))
     for m in ("halt", "clr", "mov", "ldf"):
         for d in (-1, 1):
             if m == "halt" and d == -1:
@@ -187,6 +192,9 @@ def replay(o, tree):
     if cfg.get("kind") == "pct":
         from contracts import c10
         return c10.replay(o, tree)
+    if cfg.get("kind") == "offset":
+        from contracts import c04
+        return c04.replay_offset(cfg, w, tree)
     if cfg.get("kind") == "insn" and (o.get("label", "").startswith("rel-address-operand") or o.get("label", "").startswith("state-otherwise-unchanged")):
         r = replay_rel(cfg["mnemonic"], tree)
         if r is not None and r["reproduced"]:
